@@ -25,10 +25,15 @@ func (a *Audience) UnmarshalJSON(text []byte) error {
 	}
 	switch aud := i.(type) {
 	case []any:
-		*a = make([]string, len(aud))
+		values := make([]string, len(aud))
 		for i, audience := range aud {
-			(*a)[i] = audience.(string)
+			value, ok := audience.(string)
+			if !ok {
+				return fmt.Errorf("oidc audience: unsupported member type: %T", audience)
+			}
+			values[i] = value
 		}
+		*a = values
 	case string:
 		*a = []string{aud}
 	}
